@@ -64,13 +64,24 @@ def vectors(ctx):
             n = rng.randint(6, 9)         # a busy buffer: most 100-us windows hold part of a frame, amplitudes mixed
         frames, sent, amps, gaps = [], [], [], []
         same_amp = rng.randrange(300, 1401)
+        valid = []
         for _ in range(n):
-            if rng.random() < 0.15:       # decoy: DF17 with a wrong checksum must never be returned
+            if k % 6 == 4 and frames and rng.random() < 0.6:
+                # the same transmission again within the buffer (an all-call or surveillance reply repeated, a squitter received
+                # twice): every occurrence is a frame of its own and must come back, in order
+                j = rng.randrange(len(frames))
+                f = list(frames[j])
+                if valid[j]:
+                    sent.append(f)
+                valid.append(valid[j])
+            elif rng.random() < 0.15:       # decoy: DF17 with a wrong checksum must never be returned
                 f = gen.with_parity([(17 << 3) | 5] + [rng.randrange(256) for _ in range(10)])
                 f[rng.randrange(1, 14)] ^= 1 << rng.randrange(8)
+                valid.append(False)
             else:
                 f = rand_valid(rng)
                 sent.append(f)
+                valid.append(True)
             frames.append(f)
             amps.append(same_amp if (k % 3 and not busy) else rng.randrange(300, 1401))
             if busy:
